@@ -27,7 +27,8 @@
       addresses the rest of the instruction still uses).
       - C02_alloc_point_temporaries_rooted: in every closed state, at every allocation point of the next instruction
         (StringLiteral, InitTable, SetProperty, FunctionPointer, Closure, NativeFunctionPointer, NthRow, AppendTable,
-        RegisterUpvalue, and the first init_table of __to_array / __min / __max / __sort entered by CallNative or by CallFunction on a native function value) the
+        RegisterUpvalue, and - entered by CallNative or by CallFunction on a native function value - all of
+        __to_array and __min / __max / __sort up to the first call of the key function) the
         state is closed, the guards are heap objects and every used address is reachable from the VM roots ++ the
         guards, PROVIDED the addresses in ap_assumed are (see below).
       - C02_collection_with_guards / C02_collection_at_alloc_point: a collection there (roots of the VM, guarded
@@ -39,13 +40,13 @@
       VmAllocPointsWitness.alloc_gap_register_upvalue, program VmUpvalueSem.dead_slot_program; vm.rs documents
       non-compiler bytecode as unsupported); (b) NthRow after its first init_table: key / value copied out of the
       table (they are in the table; that iteration still finds them over the grown heap needs the stability of ==
-      under allocation, VmTableKeys.veq0_ext, not redone); (c) NthRow on a key of the key vector that the hash part
-      does not hold.
+      under allocation, VmTableKeys.veq0_ext, not redone), likewise the key / value being copied in the copy loops
+      of the natives; (c) NthRow on a key of the key vector that the hash part does not hold.
    NOT PROVED (checked on the implementation by the forced-collection schedules with quarantine and heap audit,
    see the manifest: partial)
-   - allocation points NOT in the model of 3: those of a native after its first init_table (growth of the copy per
-     entry, make_row, the nested runs of the key function of min/max/sorted under the guards `entries` / max_key /
-     key_guards), Vm::insert_value (host API);
+   - allocation points NOT in the model of 3: those of __min / __max / __sort from the first call of the key function
+     on (the nested runs of the key function under the guards `entries` / max_key / key_guards, make_row, the
+     result table of sorted), Vm::insert_value (host API);
      that AGrow points are conditional (capacity) is not modelled: the theorem covers them whether they occur or not.
    - that the allocation points, [vm_kids] and [vm_roots] are what the Rust code does is a hand transcription (tied
      to the code by the heap dumps compared in C02Check.v and by the forced schedules, which collect at exactly
